@@ -285,6 +285,10 @@ def tree_case(col, rng, n=None, depth=None):
                 compare(col, desc, got, want, target, list(log), want_log, 'bare' + suffix, wit)
 
 
+_REJECT_GLOM = object()
+_REJECT_MATCH = object()
+
+
 def switch_case(col, rng):
     n = rng.randint(1, 3)
     log, counter = [], [0]
@@ -292,7 +296,13 @@ def switch_case(col, rng):
     for _ in range(rng.randint(1, 4)):
         key = gen_tree(rng, n, rng.randint(0, 2), counter, log)
         counter[0] += 1
-        if rng.random() < 0.7:
+        r = rng.random()
+        if r < 0.12:
+            # the value spec of the selected case itself fails: that failure is the Switch's outcome (no other case, no default)
+            val = (T[9], _REJECT_GLOM, None)
+        elif r < 0.24:
+            val = ((M == 'never-equal'), _REJECT_MATCH, None)
+        elif r < 0.7:
             vtag = 'v%d' % counter[0]
             val = (Val(vtag), lambda t, vtag=vtag: vtag, None)
         elif rng.random() < 0.5:
@@ -329,7 +339,10 @@ def switch_case(col, rng):
             if r[0] == 'pass':
                 if val[2]:
                     want_log.append(val[2])
-                want = ('pass', val[1](target))
+                want = ('fail', 'glom' if val[1] is _REJECT_GLOM else 'match') if val[1] in (_REJECT_GLOM, _REJECT_MATCH) \
+                    else ('pass', val[1](target))
+                if want[0] == 'fail':
+                    col.count('switch_value_spec_failures')
                 break
         if want is None:
             want = ('pass', default) if default is not None else ('fail', 'match')
